@@ -530,17 +530,24 @@ bool encode_array::push(const struct message &msg)
 	
 	while (1) {
 		if (!tmp.used) {
-			if (!tmp.clen--) {
+			if (!tmp.clen) {
 				break;
 			}
+			/* continue with next message part */
+			tmp.base = tmp.cont->iov_base;
+			tmp.used = tmp.cont->iov_len;
 			++tmp.cont;
+			--tmp.clen;
 			continue;
 		}
 		ssize_t curr = mpt_array_push(this, tmp.used, tmp.base);
 		
-		if (curr < 0 || (size_t) curr > tmp.used) {
+		if (curr <= 0 || (size_t) curr > tmp.used) {
 			return false;
 		}
+		/* remove consumed data */
+		tmp.base = static_cast<const uint8_t *>(tmp.base) + curr;
+		tmp.used -= curr;
 	}
 	return true;
 }
